@@ -1,0 +1,109 @@
+//go:build verif
+
+// Contracts for govc (see /verif/DESIGN.md). Comment-only: compiled only with -tags verif.
+package nfa
+
+// ---- bounded backtracker: generation-stamped visited table (C13, C20, C07) ----
+
+//@ spec func wfBT(b *BoundedBacktracker) bool = b != nil && 0 <= b.numStates && b.numStates <= 16384 && 0 <= b.maxVisitedSize && b.maxVisitedSize <= 4294967296
+//@ spec func stampsOK(s *BacktrackerState) bool = s != nil && off(s.Visited) == 0 && (forall i :: 0 <= i && i < cap(s.Visited) ==> s.Visited[i] <= s.Generation)
+//@ spec func viewEmpty(s *BacktrackerState) bool = forall i :: 0 <= i && i < len(s.Visited) ==> s.Visited[i] != s.Generation
+
+//@ func (*BoundedBacktracker).CanHandle
+//@   props C20 C07
+//@   requires wfBT(b) && -1 <= haystackLen && haystackLen <= 140737488355328
+//@   ensures result == (b.numStates * (haystackLen + 1) <= b.maxVisitedSize)
+
+//@ func (*BoundedBacktracker).MaxInputSize
+//@   props C20 C07
+//@   requires wfBT(b)
+//@   ensures b.numStates > 0 ==> result == b.maxVisitedSize / b.numStates - 1
+
+//@ func (*BoundedBacktracker).reset
+//@   props C13 C20 C07
+//@   requires wfBT(b) && stampsOK(state)
+//@   requires 0 <= haystackLen && haystackLen <= 140737488355328 && b.numStates * (haystackLen + 1) <= b.maxVisitedSize
+//@   modifies state.*, state.Visited[*]
+//@   ensures len(state.Visited) == b.numStates * (haystackLen + 1) && len(state.Visited) <= b.maxVisitedSize
+//@   ensures state.Generation >= 1 && state.InputLen == haystackLen && state.NumStates == b.numStates && state.SpanStart == 0
+//@   ensures viewEmpty(state)
+//@   ensures stampsOK(state)
+//@   ensures state.Longest == old(state.Longest)
+//@   ensures base(state.Visited) == old(base(state.Visited)) || fresh(state.Visited)
+//@   loop 1: invariant 0 <= rangeindex + 1 && rangeindex + 1 <= cap(state.Visited) && state.Generation == 0
+//@   loop 1: invariant len(state.Visited) == b.numStates * (haystackLen + 1) && off(state.Visited) == 0
+//@   loop 1: invariant forall i :: 0 <= i && i <= rangeindex ==> state.Visited[i] == 0
+//@   loop 1: invariant state.InputLen == haystackLen && state.NumStates == b.numStates && state.SpanStart == 0 && state.Longest == old(state.Longest)
+//@   loop 1: invariant base(state.Visited) == old(base(state.Visited)) || fresh(state.Visited)
+//@   loop 1: decreases cap(state.Visited) - rangeindex
+
+//@ func (*BoundedBacktracker).shouldVisit
+//@   props C13 C07 C05
+//@   requires s != nil && s.Generation >= 1 && stampsOK(s)
+//@   requires 0 <= pos - s.SpanStart && pos - s.SpanStart <= 281474976710656 && 0 <= s.NumStates && s.NumStates <= 16777216 && pos >= -281474976710656 && s.SpanStart <= 281474976710656 && s.SpanStart >= 0
+//@   requires (pos - s.SpanStart) * s.NumStates + state < len(s.Visited)
+//@   modifies s.Visited[*]
+//@   ensures result == (old(s.Visited[(pos - s.SpanStart) * s.NumStates + state]) != s.Generation)
+//@   ensures s.Visited[(pos - s.SpanStart) * s.NumStates + state] == s.Generation
+//@   ensures forall j :: 0 <= j && j < cap(s.Visited) && j != (pos - s.SpanStart) * s.NumStates + state ==> s.Visited[j] == old(s.Visited[j])
+//@   ensures stampsOK(s)
+
+//@ spec func btStateOK(b *BoundedBacktracker, s *BacktrackerState) bool = stampsOK(s) && s.Generation >= 1 && s.NumStates == b.numStates && 0 <= s.InputLen && s.InputLen <= 140737488355328 && 0 <= s.SpanStart && s.SpanStart <= 140737488355328 && len(s.Visited) == b.numStates * (s.InputLen + 1)
+
+//@ func (*NFA).StartAnchored
+//@   props C07
+//@   requires n != nil
+//@   ensures result == n.startAnchored
+
+// Recursive exploration: contract ASSUMED (bodies are recursive over the NFA graph; see DESIGN 6/C13).
+//@ trusted func (*BoundedBacktracker).backtrackFindWithState
+//@   requires wfBT(b) && btStateOK(b, st) && st.SpanStart <= pos && pos <= st.SpanStart + st.InputLen
+//@   modifies st.Visited[*]
+//@   ensures stampsOK(st) && (result == -1 || (pos <= result && result <= len(haystack)))
+//@ trusted func (*BoundedBacktracker).backtrackFindLongestWithState
+//@   requires wfBT(b) && btStateOK(b, st) && st.SpanStart <= pos && pos <= st.SpanStart + st.InputLen
+//@   modifies st.Visited[*]
+//@   ensures stampsOK(st) && (result == -1 || (pos <= result && result <= len(haystack)))
+//@ trusted func (*BoundedBacktracker).backtrackWithState
+//@   requires wfBT(b) && btStateOK(b, st) && st.SpanStart <= pos && pos <= st.SpanStart + st.InputLen
+//@   modifies st.Visited[*]
+//@   ensures stampsOK(st)
+
+//@ func (*BoundedBacktracker).SearchAtWithState
+//@   props C13 C07 C20
+//@   requires wfBT(b) && b.nfa != nil && stampsOK(state) && 0 <= at && at <= len(haystack) && len(haystack) <= 140737488355328
+//@   modifies state.*, state.Visited[*]
+//@   ensures result2 ==> at <= result0 && result0 <= result1 && result1 <= len(haystack)
+//@   ensures !result2 ==> result0 == -1 && result1 == -1
+//@   ensures stampsOK(state)
+//@   ensures len(state.Visited) <= b.maxVisitedSize || !result2
+//@   loop 1: invariant at <= startPos && startPos <= len(haystack) + 1 && spanLen == len(haystack) - at
+//@   loop 1: invariant btStateOK(b, state) && state.SpanStart == at && state.InputLen == spanLen
+//@   loop 1: decreases len(haystack) + 1 - startPos
+//@   loop 2: invariant 0 <= rangeindex + 1 && rangeindex + 1 <= cap(state.Visited) && state.Generation == 0 && at <= startPos && startPos <= len(haystack)
+//@   loop 2: invariant off(state.Visited) == 0 && len(state.Visited) == b.numStates * (spanLen + 1) && state.NumStates == b.numStates && state.SpanStart == at && state.InputLen == spanLen
+//@   loop 2: invariant forall i :: 0 <= i && i <= rangeindex ==> state.Visited[i] == 0
+//@   loop 2: decreases cap(state.Visited) - rangeindex
+
+//@ func (*BoundedBacktracker).SearchWithState
+//@   props C13 C07
+//@   requires wfBT(b) && b.nfa != nil && stampsOK(state) && len(haystack) <= 140737488355328
+//@   modifies state.*, state.Visited[*]
+//@   ensures result2 ==> 0 <= result0 && result0 <= result1 && result1 <= len(haystack)
+//@   ensures !result2 ==> result0 == -1 && result1 == -1
+//@   ensures stampsOK(state)
+
+//@ func (*BoundedBacktracker).IsMatchWithState
+//@   props C13 C07
+//@   requires wfBT(b) && b.nfa != nil && stampsOK(state) && len(haystack) <= 140737488355328
+//@   modifies state.*, state.Visited[*]
+//@   ensures stampsOK(state)
+//@   loop 1: invariant 0 <= startPos && startPos <= len(haystack) + 1
+//@   loop 1: invariant btStateOK(b, state) && state.SpanStart == 0 && state.InputLen == len(haystack)
+//@   loop 1: decreases len(haystack) + 1 - startPos
+
+//@ func (*BoundedBacktracker).IsMatchAnchoredWithState
+//@   props C13 C07
+//@   requires wfBT(b) && b.nfa != nil && stampsOK(state) && len(haystack) <= 140737488355328
+//@   modifies state.*, state.Visited[*]
+//@   ensures stampsOK(state)
